@@ -103,7 +103,7 @@ def uses_jw(cfg, decls):
         names = []
         if d['kind'] in ('coupling', 'multi'):
             names = [o[0] for o in d['ops']]
-        elif d['kind'] == 'expdecay':
+        elif d['kind'] in ('expdecay', 'expcenter'):
             names = [d['opi'], d['opj']]
         elif d['kind'] == 'local':
             names = [o[0] for o in d['term']]
@@ -187,7 +187,10 @@ def attempt(ctx, case, rep, opts, fn):
     except Exception as e:
         ctx.case(('c10', case.cfg, case.decls, rep, opts, 'raise'), action='C10.' + rep)
         onsite_only = no_two_site_part(case)
+        # classification only: centred exponentially decaying terms with partners left of the centre
+        centered_left = any(d['kind'] == 'expcenter' and d['i0'] > 0 for d in case.decls)
         ctx.violation(dict(kind='replay', spec='ModelDecl', rep=rep, error=type(e).__name__, onsite_only=onsite_only,
+                           centered_left=centered_left,
                            explicit=bool(opts.get('explicit')), conserve=str(opts.get('conserve')), **cfg_class(case.cfg)),
                       dict(cfg=tlaval.to_jsonable(case.cfg), decls=tlaval.to_jsonable(case.decls), opts=opts, rep=rep, error=repr(e)))
         return None
@@ -213,7 +216,7 @@ def no_two_site_part(case):
 
 
 def hm_dim(t):
-    return 3 if t == 'boson2' else 2
+    return {'boson2': 3, 'boson4': 5}.get(t, 2)
 
 
 def hm_ncell(cfg):
@@ -276,7 +279,7 @@ def replay_case(ctx, case, combo, model=None):
     rep('terms', lambda: hm.dense_from_terms(M, cells), stored)
     # 2. the MPO, by explicit contraction of its W tensors
     rep('H_MPO', lambda: hm.dense_from_mpo(M.H_MPO, cells), stored)
-    if all(d['kind'] != 'expdecay' and d.get('str', 'auto') == 'auto' for d in decls) and not uses_jw(cfg, decls):
+    if all(d['kind'] not in ('expdecay', 'expcenter') and d.get('str', 'auto') == 'auto' for d in decls) and not uses_jw(cfg, decls):
         # TermList: documented as lossy w.r.t. operator strings, hence only for models without any string
         rep('TermList', lambda: hm.dense_from_termlist(M.all_onsite_terms().to_TermList() + M.all_coupling_terms().to_TermList(),
                                                        M.lat.mps_sites(), case.infinite, cells), stored)
@@ -301,6 +304,17 @@ def replay_case(ctx, case, combo, model=None):
             if got is not None:
                 cause = None if np.array_equal(got, represented) else dict(cause=diagnose_exporter(case, M, got, explicit))
                 compare(ctx, case, name, got, represented, opts, extra=cause)
+        if conserve is not None:
+            # undo_sort_charge=False: the matrix in the charge-sorted local bases
+            def sorted_basis():
+                A = np.asarray(ted.get_numpy_Hamiltonian(M, undo_sort_charge=False), dtype=complex)
+                dims = [s_.dim for s_ in msites]
+                q = [hm.unperm(s_) for s_ in msites]
+                return A.reshape(dims + dims)[np.ix_(*(q + q))].reshape(A.shape)
+            got = attempt(ctx, case, 'get_numpy_Hamiltonian(sorted)', opts, sorted_basis)
+            if got is not None:
+                cause = None if np.array_equal(got, represented) else dict(cause=diagnose_exporter(case, M, got, explicit))
+                compare(ctx, case, 'get_numpy_Hamiltonian(sorted)', got, represented, opts, extra=cause)
     else:
         # the window: extract_segment + finite boundary conditions, as ExactDiag.from_infinite_model documents
         def ed_inf():
@@ -782,7 +796,7 @@ def predefined_items(ctx):
 
     def chain(L, bc_MPS, t):
         return dict(name='Chain', Lx=L, Ly=1, bcx='open' if bc_MPS == 'finite' else 'periodic', bcy='open', mps=bc_MPS, uc=[t],
-                    cells=1 if bc_MPS == 'finite' else 2)
+                    cells=1 if bc_MPS == 'finite' else 2, shift=0)
     for bc_MPS, L in (('finite', 3), ('finite', 4), ('infinite', 2)):
         for expl in (False, True):
             for cons in (None, 'parity'):
@@ -801,7 +815,7 @@ def predefined_items(ctx):
                 grid.append((BoseHubbardChain, dict(L=L, n_max=1, t=2., U=4., V=1., mu=1., bc_MPS=bc_MPS, conserve=cons,
                                                     explicit_plus_hc=expl), chain(L, bc_MPS, 'boson1'), cons))
     for bcy in ('cylinder', 'ladder'):
-        sq = dict(name='Square', Lx=2, Ly=2, bcx='open', bcy='periodic' if bcy == 'cylinder' else 'open', mps='finite', cells=1)
+        sq = dict(name='Square', Lx=2, Ly=2, bcx='open', bcy='periodic' if bcy == 'cylinder' else 'open', mps='finite', cells=1, shift=0)
         grid.append((TFIModel, dict(lattice='Square', Lx=2, Ly=2, bc_y=bcy, bc_MPS='finite', J=1., g=2., conserve=None),
                      dict(sq, uc=['spin']), None))
         grid.append((FermionModel, dict(lattice='Square', Lx=2, Ly=2, bc_y=bcy, bc_MPS='finite', J=1., V=1., mu=2., conserve='N'),
@@ -878,7 +892,7 @@ def run_replay_mc(ctx, lattices, maxdecl, name, trace_items, stride=1, profile='
     if res.violated:
         ctx.violation(dict(kind='mc', spec='ModelDecl', invariant=res.violated[0]),
                       dict(trace=tlaval.to_jsonable(res.error_trace)[-3:]))
-    missing = [a for a in ('Setup', 'PropOnsite', 'PropCoupling', 'PropCouplingStr', 'PropMulti', 'PropExpDecay', 'PropLocal', 'Commit')
+    missing = [a for a in ('Setup', 'PropOnsite', 'PropCoupling', 'PropCouplingStr', 'PropMulti', 'PropExpDecay', 'PropExpCenter', 'PropLocal', 'Commit')
                if res.coverage.get(a, (0, 0))[0] == 0]
     if missing and need_all_actions:
         raise core.MachineryError('actions never taken in the MC run (vacuous): %r' % missing)
@@ -925,7 +939,7 @@ def run_replay_sim(ctx, lattices, maxdecl, num, trace_items):
 
 def run_canary(ctx, trace_items):
     """The binding rejects wrong data: (a) a corrupted predicted matrix, (b) a corrupted edge of a real MPO graph."""
-    cfg = dict(name='Chain', Lx=3, Ly=1, bcx='open', bcy='open', mps='finite', uc=['spin'], cells=1)
+    cfg = dict(name='Chain', Lx=3, Ly=1, bcx='open', bcy='open', mps='finite', uc=['spin'], cells=1, shift=0)
     decls = [dict(kind='coupling', s=dict(shape=[1, 1], vals=[[1, 0]]), ops=[['Sp', [0, 0], 0], ['Sm', [1, 0], 0]], str='auto', hc=True)]
     M = hm.build_model(cfg, decls)
     good = hm.dense_from_mpo(M.H_MPO)
@@ -974,6 +988,7 @@ def run_replay_file(ctx, path):
     det = rec['detail']
     if 'cfg' not in det or 'decls' not in det:
         raise core.MachineryError('replay file has no (cfg, decls)')
+    det['cfg'].setdefault('shift', 0)
     obs, res = spec_obs([(det['cfg'], det['decls'])])
     ctx.add_mc('C10Obs-replay', res)
     case = Case(det['cfg'], det['decls'], obs[0])
